@@ -1,6 +1,7 @@
-/- dsmodel: line-protocol driver; one sub-command per family. -/
+/- dsmodel_theta: `theta` = update/compact/set-operation histories, `hash` = Murmur/canonicalisation tie. -/
 import DSModel.Theta.Driver
-import DSGen
+import DSModel.DriverLoop
+import DSGen.Theta
 open DS
 
 def hashStep (w : List String) : String :=
@@ -25,21 +26,8 @@ def thetaTunables : Theta.Tunables :=
     rbdNum := DSGen.theta_REBUILD_THRESHOLD_num, rbdDen := DSGen.theta_REBUILD_THRESHOLD_den,
     minLgK := DSGen.theta_MIN_LG_K }
 
-partial def loop {σ} (h : IO.FS.Stream) (out : IO.FS.Stream) (st : σ) (step : σ → List String → σ × String) : IO Unit := do
-  let line ← h.getLine
-  if line.isEmpty then return ()
-  let w := (line.trimAscii.toString.splitOn " ").filter (· ≠ "")
-  if w.isEmpty || (w.head!.startsWith "#") then
-    loop h out st step
-  else
-    let (st', o) := step st w
-    out.putStrLn o
-    loop h out st' step
-
 def main (args : List String) : IO UInt32 := do
-  let stdin ← IO.getStdin
-  let stdout ← IO.getStdout
   match args with
-  | ["hash"] => loop stdin stdout () (fun _ w => ((), hashStep w)); return 0
-  | ["theta"] => loop stdin stdout (#[] : Theta.Objs) (Theta.stepLine thetaTunables); return 0
-  | _ => IO.eprintln "usage: dsmodel <family>"; return 2
+  | ["hash"] => runDriver () (fun _ w => ((), hashStep w))
+  | ["theta"] => runDriver (#[] : Theta.Objs) (Theta.stepLine thetaTunables)
+  | _ => IO.eprintln "usage: dsmodel_theta hash|theta"; return 2
